@@ -253,11 +253,20 @@ func engineHint(c *Ctx) {
 			pool := genHintItems(r, 3+r.Intn(40))
 			var srcs [][]store.VerifHintItem
 			var chunks []int
+			// one case in five: sources may repeat a chunk id and offsets come from a tiny range, so that the same key
+			// occurs with the SAME position in two sources (a tie: which copy survives depends on the heap; only the
+			// step-by-step model is compared there, the specification is stated for tie-free inputs)
+			tieCase := r.Chance(20)
+			offRange := 1000
+			if tieCase {
+				offRange = 3
+				c.count("merges-with-repeated-chunk-ids")
+			}
 			for s := 0; s < ns; s++ {
 				var src []store.VerifHintItem
 				for _, it := range pool {
 					if r.Chance(55) {
-						it.Offset = uint32(r.Intn(1000)) << 8
+						it.Offset = uint32(r.Intn(offRange)) << 8
 						it.Ver = int32(1 + r.Intn(50))
 						src = append(src, it)
 					}
@@ -266,7 +275,11 @@ func engineHint(c *Ctx) {
 					src = append(src, pool[0]) // merge dereferences the first item of every source
 				}
 				srcs = append(srcs, src)
-				chunks = append(chunks, s*2+r.Intn(2))
+				if tieCase && s > 0 && r.Chance(50) {
+					chunks = append(chunks, chunks[s-1])
+				} else {
+					chunks = append(chunks, s*2+r.Intn(2))
+				}
 			}
 			hintMerge(c, dir, srcs, chunks)
 			c.count("merges")
